@@ -112,7 +112,7 @@ Definition raises (c : string) : option (list exc) :=
   | "reader.reader.get_related_parts_by_type" => Some [EXMLSyntax; EBadZip; EZlib; EOSError; ENotImplemented]
   | "reader.reader.get_content_type" => Some [EKeyError]
   | "reader.reader.open_part" => Some [EKeyError; EBadZip; EOSError; ENotImplemented]
-  | "checker.check_object_store" => Some [ENotImplemented]
+  | "checker.check_object_store" => Some []    (* overridden by the generated [checker_raises], see [escapes] *)
   | "files.get_sha256(obj.value)" => Some [EKeyError]
   (* reached only after AASDataChecker found the store equal to the example data, whose submodel holds
      ExampleSubmodelCollection/ExampleFile, and after get_sha256 of the same value succeeded *)
@@ -146,6 +146,9 @@ Inductive esc := EscOk (l : list exc) | EscUnknown (c : string) | EscOutOfFuel.
 
 Section Escapes.
 Variable functions : list (string * list site).
+(* what AASDataChecker.check_object_store can raise: generated from _helper.py (NotImplementedError for unordered
+   lists; AttributeError if `.__name__` is taken of a value that may be None) *)
+Variable checker_raises : list exc.
 
 Fixpoint escapes (fuel : nat) (f : string) : esc :=
   match fuel with
@@ -159,7 +162,8 @@ Fixpoint escapes (fuel : nat) (f : string) : esc :=
         | EscOk l =>
           let r := match fassoc (callee s) functions with
                    | Some _ => escapes n (callee s)
-                   | None => match raises (callee s) with Some l' => EscOk l' | None => EscUnknown (callee s) end
+                   | None => if String.eqb (callee s) "checker.check_object_store" then EscOk checker_raises
+                             else match raises (callee s) with Some l' => EscOk l' | None => EscUnknown (callee s) end
                    end in
           match r with
           | EscOk l' => EscOk (l ++ filter (fun e => negb (caught e (handlers s))) l')
